@@ -562,4 +562,7 @@ def run(facts, tier, ctx):
         wz.fail(Finding("WORKERS/non-zero", dw.id, "no-nonzero-source", 0, dw.loc(), "no NonZeroUsize::get source found"))
     wz.require_floor(2, "worker-count sources")
     out.append(wz)
+    # ... and that non-zero count is what sizes the pool and the stop tokens (no arithmetic on the way; shared with C05)
+    from . import c05
+    out += [r for r in c05.shared_state(facts) if r.rule == "STATE-ENUM/shared"]
     return out
